@@ -742,9 +742,9 @@ theorem ctl_spec {m : SeqMod} (w : WFacts m) {s : St} (hc : Core m s) (c : Ctl) 
     exact ⟨⟨hc.seq, hc.ord, hc.ordPat, ⟨by simp only; omega, by have := w.len; simp only; omega⟩, hc.row, hc.speed, hc.bpm,
       hc.ftBpm, hc.st26, hc.jump, hc.jumpline⟩, fun ri => ⟨ri.rowLt, ri.numOk⟩⟩
   | restart =>
-    simp only [ctl, restartModule]
+    simp only [ctl, restartModule, resetFlow]
     exact ⟨⟨hc.seq, hc.ord, hc.ordPat, ⟨by simp only; omega, by have := w.len; simp only; omega⟩, hc.row, hc.speed, hc.bpm,
-      hc.ftBpm, hc.st26, hc.jump, hc.jumpline⟩, fun ri => ⟨ri.rowLt, ri.numOk⟩⟩
+      hc.ftBpm, hc.st26, by simp only; omega, by simp only; omega⟩, fun ri => ⟨ri.rowLt, ri.numOk⟩⟩
   | bufReset =>
     simp only [ctl, bufferReset]
     exact ⟨⟨hc.seq, hc.ord, hc.ordPat, hc.pos, hc.row, hc.speed, hc.bpm,
